@@ -10,6 +10,7 @@ import (
 	"encoding/json"
 	"fmt"
 	"os"
+	"runtime"
 	"sort"
 	"strings"
 	"time"
@@ -69,6 +70,7 @@ type scenario struct {
 	Authorizers int      `json:"authorizers,omitempty"` // zcnsc authorizers registered (by the owner) before block 1
 	BaseTime    int64    `json:"base_time,omitempty"`   // 0: 1700000000
 	Cold        bool     `json:"cold,omitempty"`        // fresh state cache for every block
+	Repeat      int      `json:"repeat,omitempty"`      // >0: every transaction of the last block is first executed Repeat times on forks of the same state (GOMAXPROCS 16)
 	Blocks      []sblock `json:"blocks"`
 }
 
@@ -88,6 +90,9 @@ type result struct {
 	Txns    [][]txnResult `json:"txns"`
 	Roots   []string      `json:"roots"`   // state root after each block
 	Changes []int         `json:"changes"` // change count of the block trie after each block
+	// Repeat > 0: per transaction of the last block the distinct (status, output, events) outcomes of the
+	// repeated executions on the same state, with their counts
+	Variants []map[string]int `json:"variants,omitempty"`
 }
 
 var scAddr = map[string]string{"faucet": faucetsc.ADDRESS, "miner": minersc.ADDRESS, "storage": storagesc.ADDRESS,
@@ -174,6 +179,21 @@ func runWorker(scn scenario) result {
 	}
 	nonce := map[string]int64{}
 	scache := statecache.NewStateCache()
+	var cur util.MerklePatriciaTrieI = mpt // the block state exec works on
+	var subst []string                     // $m1 $s1 $auth1 $a1 ... in inputs -> ids
+	for i, m := range miners {
+		subst = append(subst, fmt.Sprintf("$m%d", i+1), m.id)
+	}
+	for i, m := range sharders {
+		subst = append(subst, fmt.Sprintf("$s%d", i+1), m.id)
+	}
+	for i, m := range auths {
+		subst = append(subst, fmt.Sprintf("$auth%d", i+1), m.id)
+	}
+	for i := 1; i <= 9; i++ {
+		subst = append(subst, fmt.Sprintf("$a%d", i), acct(fmt.Sprintf("a%d", i)))
+	}
+	idSubst := strings.NewReplacer(subst...)
 	var res result
 	seq := 0
 	prevHash := "verif genesis"
@@ -199,7 +219,7 @@ func runWorker(scn scenario) result {
 		txn.TransactionType = transaction.TxnTypeSmartContract
 		txn.SmartContractData = &transaction.SmartContractData{}
 		txn.CreationDate = common.Timestamp(base + t.TimeOffset)
-		in := t.Input
+		in := idSubst.Replace(t.Input)
 		if t.Mint != nil {
 			p := &zcnsc.MintPayload{EthereumTxnID: fmt.Sprintf("0xeth%d", t.Mint.Nonce), Amount: currency.Coin(t.Mint.Amount), Nonce: t.Mint.Nonce, ReceivingClientID: from}
 			toSign := p.GetStringToSign()
@@ -228,7 +248,7 @@ func runWorker(scn scenario) result {
 				tr.Panic = fmt.Sprint(r)
 			}
 		}()
-		evs, err := c.UpdateState(context.Background(), b, mpt, txn, bc)
+		evs, err := c.UpdateState(context.Background(), b, cur, txn, bc)
 		if err != nil {
 			tr.Err = err.Error()
 			return tr
@@ -286,6 +306,23 @@ func runWorker(scn scenario) result {
 		bc := statecache.NewBlockCache(scache, statecache.Block{Round: b.Round, Hash: b.Hash, PrevHash: prevHash})
 		var trs []txnResult
 		for _, t := range sb.Txns {
+			if scn.Repeat > 0 && bi == len(scn.Blocks)-1 {
+				// the same transaction on the same state, many times: every outcome must be the same
+				runtime.GOMAXPROCS(16)
+				vs := map[string]int{}
+				for k := 0; k < scn.Repeat; k++ {
+					seq0, n0 := seq, map[string]int64{}
+					for a, v := range nonce {
+						n0[a] = v
+					}
+					cur = util.NewMerklePatriciaTrie(util.NewLevelNodeDB(util.NewMemoryNodeDB(), mpt.GetNodeDB(), false), 1, mpt.GetRoot(), statecache.NewEmpty())
+					fbc := statecache.NewBlockCache(statecache.NewStateCache(), statecache.Block{Round: b.Round, Hash: b.Hash, PrevHash: prevHash})
+					r := exec(b, fbc, t)
+					cur, seq, nonce = mpt, seq0, n0
+					vs[fmt.Sprintf("%v/%d/%s/%s/%s|%s", r.Applied, r.Status, r.Err, r.Panic, r.Output, strings.Join(r.Events, ","))]++
+				}
+				res.Variants = append(res.Variants, vs)
+			}
 			trs = append(trs, exec(b, bc, t))
 		}
 		bc.Commit()
